@@ -3,8 +3,12 @@ package scen
 import (
 	"bytes"
 	"fmt"
+	"os"
+	"path/filepath"
 	"sort"
 	"strings"
+
+	"verifsim/fmtv2"
 
 	"verifsim/sim"
 	"verifsim/world"
@@ -87,18 +91,50 @@ func conc(c *Ctx) {
 			world.StepInvariants(s, n, "")
 		}
 	}
-	n = c.Start("g0:", dir, cfg, nil)
-	if n.Err != nil {
-		s.Violate("C09.starts", "g0:", "start-up failed on an empty directory: %v", n.Err)
-		return
-	}
-
 	// Key universe: small blobs so that a tight cache holds two or three.
 	nCas := 1 + r.Intn(3)
 	var casBlobs []*world.Blob
 	sizes := []int64{3000, 100, 4096, 5000, 9000, 1}
 	for i := 0; i < nCas; i++ {
 		casBlobs = append(casBlobs, world.Make(world.BlobID{Kind: r.Intn(3), Seed: 100 + i, Size: sizes[r.Intn(len(sizes))]}))
+	}
+	// Optionally the directory already holds corrupt cas.v2 files for some of
+	// the keys (what a crash or a bad disk leaves): the loader indexes them by
+	// name, readers discover the damage and drop the entry while others use it.
+	corruptKey := map[string]bool{}
+	const corruptSuffix = "Corrupt7"
+	if c.Opt("corrupt", "") == "1" || (c.Opt("corrupt", "") == "" && r.Chance(1, 3)) {
+		for _, b := range casBlobs {
+			if !r.Chance(2, 3) {
+				continue
+			}
+			img := fmtv2.Encode(b.Data, fmtv2.WriteOpts{})
+			switch r.Intn(4) {
+			case 0:
+				img = img[:len(img)*2/3]
+			case 1:
+				for i := 29; i < 45 && i < len(img); i++ {
+					img[i] = 0
+				}
+			case 2:
+				img[0] ^= 0xff
+			default:
+				if len(img) > 45 {
+					img = img[:45]
+				}
+			}
+			p := filepath.Join(dir, fmt.Sprintf("cas.v2/%s/%s-%d-%s", b.Hash[:2], b.Hash, b.Size(), corruptSuffix))
+			_ = os.MkdirAll(filepath.Dir(p), 0o755)
+			_ = os.WriteFile(p, img, 0o644)
+			corruptKey["cas/"+b.Hash] = true
+			c.Logf("corrupt file on disk for %s", b.ID)
+			s.Fault("disk.corrupt-file")
+		}
+	}
+	n = c.Start("g0:", dir, cfg, nil)
+	if n.Err != nil {
+		s.Violate("C09.starts", "g0:", "start-up failed: %v", n.Err)
+		return
 	}
 	nAc := 1 + r.Intn(2)
 	acKeys := make([]string, nAc)
@@ -242,7 +278,9 @@ func conc(c *Ctx) {
 					if res.Found && res.Size != b.Size() {
 						s.Violate("C07.whole", "disk.Contains", "contains reported size %d for %s", res.Size, b.ID)
 					}
-					add(histOp{client: ci, key: "cas/" + b.Hash, val: b.Hash, ok: res.Found, miss: !res.Found, call: res.Call, ret: res.Ret})
+					if !corruptKey["cas/"+b.Hash] {
+						add(histOp{client: ci, key: "cas/" + b.Hash, val: b.Hash, ok: res.Found, miss: !res.Found, call: res.Call, ret: res.Ret})
+					}
 				}})
 			case 6: // pressure: an unrelated blob
 				acSeq++
@@ -283,7 +321,13 @@ func conc(c *Ctx) {
 		s.Violate("C07.progress", "drain", "background work did not drain: %d", d)
 		return
 	}
-	world.Quiescence(s, n, world.QuiescenceOpts{})
+	untouched := map[string]bool{} // corrupt files nobody read are still indexed as they are
+	for _, e := range world.Observe(n).Index {
+		if e.Random == corruptSuffix {
+			untouched[e.Key] = true
+		}
+	}
+	world.Quiescence(s, n, world.QuiescenceOpts{InFlight: untouched})
 	if fds := world.OpenFDs(n.Dir); len(fds) > 0 {
 		s.Violate("C14.fds", "fd", "open descriptors into the cache directory with no request in flight: %v", fds)
 	}
